@@ -522,6 +522,9 @@ impl World {
             let size = if path_class(k) == PathClass::Index { 0 } else { v.data.len() as u64 };
             // names are canonicalised (random uuids drawn by worker threads are not reproducible)
             // and the combination is order independent
+            if std::env::var("VERIF_DEBUG_DIGEST").is_ok() {
+                eprintln!("digest-object {} {} (raw {} {})", canon_path(k), size, k, v.data.len());
+            }
             h = h.wrapping_add(crate::rng::mix(&[crate::rng::hash_str(&canon_path(k)), size]));
         }
         h
